@@ -132,9 +132,18 @@ def make_contour(mname, alpha, limits_kind, deltas_spec, seed):
         limits = [(b, a) for a, b in GENEROUS[mname]]
     elif limits_kind == "tight":
         limits = list(TIGHT[mname])
+    elif limits_kind.startswith("cut"):
+        # the first variable's upper limit cuts off a tail of k*alpha (k = 0.5 .. 3): grids that can barely / barely not hold
+        # 1-alpha; the other variables get very wide limits so that their tails are negligible (< 0.01 alpha)
+        k = float(limits_kind[3:])
+        q0 = float(model.distributions[0].icdf(1 - k * alpha))
+        wide = {"w_ln": (0, 250.0), "ew_ew": (0, 400.0), "ln_normal": (-9.0, 13.0), "w_ln_indep": (0, 250.0)}[mname]
+        limits = [(0, q0), wide]
     else:
         raise ValueError(limits_kind)
     ref_lim = GENEROUS[mname] if limits_kind != "tight" else TIGHT[mname]
+    if limits_kind.startswith("cut"):
+        ref_lim = limits
     kind, val = deltas_spec
     if kind == "none":
         deltas = None
